@@ -381,6 +381,19 @@ fn judge(report: &mut Report, o: &Outcome, kind: &str, cycle: Option<(&str, bool
 fn replay_one(report: &mut Report, v: &Value) {
     let scratch = Scratch::new("c17r");
     let sp = scratch.file(v["schema"].as_str().unwrap_or(""), v["schema_ext"].as_str().unwrap_or("graphql"));
+    if v["mode"] == "repeat" {
+        use crate::e2::{run_history_fresh, History};
+        let j = Job { schema_path: sp, query: QuerySrc::Text(v["document"].as_str().unwrap_or("").into()), opts: Opts::default(), cwd: None };
+        let h = History { calls: vec![j.clone(), j.clone(), j], threads: 1 };
+        report.evaluations += 1;
+        report.nontrivial.insert(1);
+        match run_history_fresh(&h, std::time::Duration::from_secs(60)) {
+            Ok(o) if o.iter().all(|x| matches!(x, Outcome::Ok(_) | Outcome::Err(_) | Outcome::Panic(_))) => {}
+            Ok(o) => report.violation("replay-repeat", &format!("replayed: a repeated call ended with {}", o.iter().map(|x| x.short()).collect::<Vec<_>>().join(" / ")), v.clone()),
+            Err(e) => report.violation("replay-repeat", &format!("replayed: the same input issued three times in one process: {}", e), v.clone()),
+        }
+        return;
+    }
     let o = Pool::default().run(&[Job { schema_path: sp, query: QuerySrc::Text(v["document"].as_str().unwrap_or("").into()), opts: Opts::default(), cwd: None }]);
     let cyc_parent = v["cycle"]["parent"].as_str().map(|s| s.to_string());
     let cyc = cyc_parent.as_deref().map(|p| (p, v["cycle"]["has_typename"].as_bool().unwrap_or(false)));
@@ -417,7 +430,7 @@ fn fuzz_campaign(report: &mut Report) {
 }
 
 pub fn run(report: &mut Report, replay: Option<&Value>) {
-    report.rule = "adversarial grammar (tape-decoded): fragment-spread cycles of length 1-6 on objects / interfaces / unions, with and without `__typename`, direct or through fields; input-type cycles incl. non-null ones and @oneOf, also with object-literal default values that omit members on the cycle; selection nesting and type-expression nesting up to 64; 2-3 inline fragments for the same variant at every level of a selection 10-28 deep (input linear in the depth); interfaces without implementors, self-referential unions, dangling names; documents broken by token deletion / duplication, truncated schemas; introspection JSON with members removed or nulled; valid cases mixed in. Every input runs in an isolated worker process (8 MiB stack, like a proc macro). Oracle: the call ends with Ok, Err or a panic carrying a message inside the watchdog; a signal, abort or repeatable silence is a violation. Non-trivial: the input contains a cycle, nesting >= 16, or is syntactically broken; distinct by hash(schema, document).".into();
+    report.rule = "adversarial grammar (tape-decoded): fragment-spread cycles of length 1-6 on objects / interfaces / unions, with and without `__typename`, direct or through fields; input-type cycles incl. non-null ones and @oneOf, also with object-literal default values that omit members on the cycle; selection nesting and type-expression nesting up to 64; 2-3 inline fragments for the same variant at every level of a selection 10-28 deep (input linear in the depth); interfaces without implementors, self-referential unions, dangling names; documents broken by token deletion / duplication, truncated schemas; introspection JSON with members removed or nulled; valid cases mixed in. Every input runs in an isolated worker process (8 MiB stack, like a proc macro). Oracle: the call ends with Ok, Err or a panic carrying a message inside the watchdog; a signal, abort or repeatable silence is a violation; inputs that ended with Err / panic are also issued three times in one fresh process, where every call must terminate. Non-trivial: the input contains a cycle, nesting >= 16, or is syntactically broken; distinct by hash(schema, document).".into();
     report.assumptions = vec!["a hang is only called after it repeats alone with a 60 s limit".into(), "graphql-parser's own recursion limit (50 brackets) is third-party behaviour: its parse errors are an accepted `Err`".into()];
     if let Some(v) = replay {
         replay_one(report, v);
@@ -449,6 +462,56 @@ pub fn run(report: &mut Report, replay: Option<&Value>) {
         }
     }
     report.programs = jobs.len() as u64;
+    // the same failing input twice in one process: the second call must terminate as well (a
+    // reservation or lock left behind by the first failure would make it wait for ever)
+    {
+        use crate::e2::{run_history_fresh, History};
+        let cap = if report.thorough() { 2000 } else { 320 };
+        let again: Vec<usize> = outs.iter().enumerate().filter(|(_, o)| matches!(o, Outcome::Panic(_) | Outcome::Err(_))).map(|(i, _)| i).take(cap).collect();
+        let results: Vec<Option<String>> = {
+            let next = std::sync::atomic::AtomicUsize::new(0);
+            let out: std::sync::Mutex<Vec<Option<String>>> = std::sync::Mutex::new(vec![None; again.len()]);
+            let hangs = std::sync::atomic::AtomicUsize::new(0);
+            std::thread::scope(|s| {
+                for _ in 0..16 {
+                    s.spawn(|| loop {
+                        let k = next.fetch_add(1, std::sync::atomic::Ordering::SeqCst);
+                        if k >= again.len() || hangs.load(std::sync::atomic::Ordering::SeqCst) >= 3 {
+                            break;
+                        }
+                        let j = &jobs[again[k]];
+                        let h = History { calls: vec![j.clone(), j.clone(), j.clone()], threads: 1 };
+                        let verdict = match run_history_fresh(&h, std::time::Duration::from_secs(25)) {
+                            Ok(o) => o.iter().skip(1).find(|x| !matches!(x, Outcome::Ok(_) | Outcome::Err(_) | Outcome::Panic(_))).map(|x| format!("a repeated call ended with {}", x.short())),
+                            Err(e) if e.contains("timed out") => {
+                                // confirm once more, alone-ish, with a longer limit
+                                match run_history_fresh(&h, std::time::Duration::from_secs(60)) {
+                                    Err(e2) if e2.contains("timed out") => {
+                                        hangs.fetch_add(1, std::sync::atomic::Ordering::SeqCst);
+                                        Some("the same input issued again in the same process does not terminate (25 s, then 60 s)".to_string())
+                                    }
+                                    _ => None,
+                                }
+                            }
+                            Err(e) => Some(format!("the process died on a repeated call: {}", e)),
+                        };
+                        out.lock().unwrap()[k] = verdict;
+                    });
+                }
+            });
+            out.into_inner().unwrap()
+        };
+        for (k, v) in results.into_iter().enumerate() {
+            report.evaluations += 1;
+            report.feature("repeated_failing_call");
+            if let Some(what) = v {
+                let (tp, adv) = &metas[again[k]];
+                let summary = format!("code generation did not terminate cleanly [{}, issued three times in one process]: {}", adv.kind, what);
+                let replay = json!({"engine": "e2", "mode": "repeat", "tape_hex": crate::tape::hex(tp), "kind": adv.kind, "schema": adv.schema, "schema_ext": adv.ext, "document": adv.query, "observed": what});
+                report.failure(None, &format!("{}:repeat", adv.kind), &summary, || replay);
+            }
+        }
+    }
     if report.thorough() {
         fuzz_campaign(report);
     }
